@@ -382,9 +382,8 @@ def op_text(model, sg, op, kind):
         axis = opt(op, 0, "i", 0)
         if opt(op, 1, "b", 0) != 0:
             raise NotSimulated("CONCATENATION:fused_activation")
-        qo = qparams(T[outs[0]])
-        if any(qparams(T[i]) != qo for i in ins):
-            raise NotSimulated("CONCATENATION:requantising")
+        for i in ins + outs:
+            one_scale(T[i], kind)
         rank = len(T[outs[0]]["shape"])
         g = [[axis + rank if axis < 0 else axis]]
     elif kind == "SPLIT":
@@ -395,14 +394,30 @@ def op_text(model, sg, op, kind):
         g = [[axis_v[0] + rank if axis_v[0] < 0 else axis_v[0], opt(op, 0, "i", 0)]]
     elif kind == "STRIDED_SLICE":
         b, e, st = (const_ints(model, T[i]) for i in ins[1:4])
-        if b is None or e is None or st is None or any(s != 1 for s in st):
-            raise NotSimulated("STRIDED_SLICE:dynamic_or_strided")
-        if any(opt(op, k, "i", 0) != 0 for k in range(5)):
-            raise NotSimulated("STRIDED_SLICE:masks")
+        if b is None or e is None or st is None:
+            raise NotSimulated("STRIDED_SLICE:dynamic")
+        if any(s_ <= 0 for s_ in st):
+            raise NotSimulated("STRIDED_SLICE:non_positive_stride")
+        bm, em, ell, new_ax, shrink = (opt(op, k, "i", 0) for k in range(5))
+        if ell or new_ax or opt(op, 5, "B", 0):
+            raise NotSimulated("STRIDED_SLICE:ellipsis_new_axis_or_offset")
         shape = T[ins[0]]["shape"]
-        b = [x + d if x < 0 else x for x, d in zip(b, shape)]
-        e = [x + d if x < 0 else x for x, d in zip(e, shape)]
-        g = [b, e]
+        if not (len(b) == len(e) == len(st) == len(shape)):
+            raise NotSimulated("STRIDED_SLICE:rank")
+        # strided_slice_logic.h for positive strides: negative indices wrap once, then clamp to [0, dim]; masks select the ends
+        rb, re_ = [], []
+        for i, d in enumerate(shape):
+            bi = b[i] + d if b[i] < 0 else b[i]
+            ei = e[i] + d if e[i] < 0 else e[i]
+            bi = 0 if (bm >> i) & 1 else min(max(bi, 0), d)
+            ei = d if (em >> i) & 1 else min(max(ei, 0), d)
+            if (shrink >> i) & 1:
+                ei = bi + 1
+            if ei <= bi:
+                raise NotSimulated("STRIDED_SLICE:empty")
+            rb.append(bi)
+            re_.append(ei)
+        g = [rb, re_, list(st)]
         ins = ins[:1]
     elif kind == "PAD":
         p = const_ints(model, T[ins[1]])
